@@ -144,6 +144,9 @@ func errKind(s string) string {
 	return string(b)
 }
 
+// the messages of util/assert (possibly behind the compiler's "compile error @N " prefix)
+var rxAssert = regexp.MustCompile(`^((compile|syntax) error @-?\d+ )*(ASSERT FAILED|assert failed: )`)
+
 // classify a recovered panic value: ok (reported error) or a violation text
 func classify(e any) (reported bool, kind string) {
 	if e == nil {
@@ -158,9 +161,7 @@ func classify(e any) (reported bool, kind string) {
 	default:
 		return false, fmt.Sprintf("panic with unexpected Go type %T: %s", e, txt)
 	}
-	low := strings.ToLower(txt)
-	if strings.Contains(low, "assert") || strings.Contains(low, "should not reach here") ||
-		strings.Contains(low, "shouldnotreachhere") {
+	if rxAssert.MatchString(txt) {
 		return false, "internal assertion instead of a reported syntax error: " + txt
 	}
 	return true, txt
